@@ -18,6 +18,8 @@ HERE = os.path.dirname(os.path.abspath(__file__))
 sys.path.insert(0, HERE)
 REPO = os.environ.get("VERIF_REPO", "/repo")
 sys.path.insert(0, REPO)
+import codec_build  # noqa: E402
+codec_build.install()
 
 
 def main():
